@@ -10,6 +10,9 @@ CONSTANTS
   HasReader = FALSE
   ClosesSocket = FALSE
   PopAtomic = FALSE
+  WriteWakes = {"ctx", "sock"}
+  LockWakes = {"ctx"}
+  CloseTakesWriteLock = FALSE
   ParkWakes = "conn"
   Noise = {"silent", "unsolicited", "garbage"}
 INVARIANTS NoFalseError SlotsSane OnceEach SockOnce DoneOnceIfReaderOnly
